@@ -43,7 +43,7 @@ macro_rules! same_as_fresh {
             let na = $a.input_frames_next();
             let nb = $b.input_frames_next();
             check!(na == nb, "C10.getter_input_frames_next[base]");
-            $nd.assume(na <= $MI && nb <= $MI);
+            $crate::fit!($nd, na <= $MI && nb <= $MI, "C10.demand_fits_scenario_bound[base]");
             let ra = $a.process_into_buffer(&[&x0[..na], &x1[..na]], &mut [&mut a0[..], &mut a1[..]], None);
             let rb = $b.process_into_buffer(&[&x0[..nb], &x1[..nb]], &mut [&mut b0[..], &mut b1[..]], None);
             match (ra, rb) {
@@ -82,7 +82,7 @@ macro_rules! dirty_async {
         let mut y0 = [0.0 as $T; $MO];
         let mut y1 = [0.0 as $T; $MO];
         let n = $a.input_frames_next();
-        $nd.assume(n <= $MI);
+        $crate::fit!($nd, n <= $MI, "C10.demand_fits_scenario_bound[base]");
         let r1 = $a.process_into_buffer(&[&x0[..n], &x1[..n]], &mut [&mut y0[..], &mut y1[..]], Some(&[true, m1]));
         check!(r1.is_ok(), "C03.ok[base]");
         // a pending (unprocessed) change and a failed call just before the reset
@@ -114,7 +114,7 @@ macro_rules! dirty_concrete {
         let mut k = 0;
         while k < $ncalls {
             let n = $a.input_frames_next();
-            $nd.assume(n <= $MI);
+            $crate::fit!($nd, n <= $MI, "C10.demand_fits_scenario_bound[base]");
             let r = $a.process_into_buffer(&[&x0[..n], &x1[..n]], &mut [&mut y0[..], &mut y1[..]], Some(&[true, k == 0]));
             check!(r.is_ok(), "C03.ok[base]");
             k += 1;
@@ -151,7 +151,7 @@ macro_rules! same1 {
             let na = $a.input_frames_next();
             let nb = $b.input_frames_next();
             check!(na == nb, "C10.getter_input_frames_next[base]");
-            $nd.assume(na <= $MI && nb <= $MI);
+            $crate::fit!($nd, na <= $MI && nb <= $MI, "C10.demand_fits_scenario_bound[base]");
             let ra = $a.process_into_buffer(&[&x0[..na]], &mut [&mut a0[..]], None);
             let rb = $b.process_into_buffer(&[&x0[..nb]], &mut [&mut b0[..]], None);
             match (ra, rb) {
@@ -180,7 +180,7 @@ macro_rules! dirty1 {
         let mut k = 0;
         while k < $ncalls {
             let n = $a.input_frames_next();
-            $nd.assume(n <= $MI);
+            $crate::fit!($nd, n <= $MI, "C10.demand_fits_scenario_bound[base]");
             let r = $a.process_into_buffer(&[&x0[..n]], &mut [&mut y0[..]], None);
             check!(r.is_ok(), "C03.ok[base]");
             k += 1;
@@ -279,14 +279,14 @@ harnesses! {
     #[kani::stub(realfft::RealFftPlanner::<f64>::plan_fft_inverse, crate::stubs::plan_inv)]
     #[kani::stub(rubato::sinc::make_sincs, crate::stubs::make_sincs_unit)]
     fn c10_fto_1(nd) {
-        let mut a = FftFixedOut::<f64>::new(2, 3, 4, 1, 1).unwrap();
-        let mut b = FftFixedOut::<f64>::new(2, 3, 4, 1, 1).unwrap();
+        let mut a = FftFixedOut::<f64>::new(2, 3, 4, 2, 1).unwrap();
+        let mut b = FftFixedOut::<f64>::new(2, 3, 4, 2, 1).unwrap();
         let x0 = [0.5f64; 8];
         let mut y0 = [0.0f64; 4];
         let mut k = 0;
         while k < 1 {
             let n = a.input_frames_next();
-            nd.assume(n <= 8);
+            crate::fit!(nd, n <= 8, "C10.demand_fits_scenario_bound[base]");
             let r = a.process_into_buffer(&[&x0[..n]], &mut [&mut y0[..]], None);
             check!(r.is_ok(), "C03.ok[base]");
             k += 1;
@@ -308,7 +308,7 @@ harnesses! {
         let mut k = 0;
         while k < 2 {
             let n = a.input_frames_next();
-            nd.assume(n <= 8);
+            crate::fit!(nd, n <= 8, "C10.demand_fits_scenario_bound[base]");
             let r = a.process_into_buffer(&[&x0[..n]], &mut [&mut y0[..]], None);
             check!(r.is_ok(), "C03.ok[base]");
             k += 1;
@@ -330,7 +330,7 @@ harnesses! {
         let mut k = 0;
         while k < 2 {
             let n = a.input_frames_next();
-            nd.assume(n <= 8);
+            crate::fit!(nd, n <= 8, "C10.demand_fits_scenario_bound[base]");
             let r = a.process_into_buffer(&[&x0[..n]], &mut [&mut y0[..]], None);
             check!(r.is_ok(), "C03.ok[base]");
             k += 1;
@@ -352,7 +352,7 @@ harnesses! {
         let mut k = 0;
         while k < 1 {
             let n = a.input_frames_next();
-            nd.assume(n <= 3);
+            crate::fit!(nd, n <= 3, "C10.demand_fits_scenario_bound[base]");
             let r = a.process_into_buffer(&[&x0[..n]], &mut [&mut y0[..]], None);
             check!(r.is_ok(), "C03.ok[base]");
             k += 1;
@@ -374,7 +374,7 @@ harnesses! {
         let mut k = 0;
         while k < 2 {
             let n = a.input_frames_next();
-            nd.assume(n <= 3);
+            crate::fit!(nd, n <= 3, "C10.demand_fits_scenario_bound[base]");
             let r = a.process_into_buffer(&[&x0[..n]], &mut [&mut y0[..]], None);
             check!(r.is_ok(), "C03.ok[base]");
             k += 1;
@@ -396,7 +396,7 @@ harnesses! {
         let mut k = 0;
         while k < 1 {
             let n = a.input_frames_next();
-            nd.assume(n <= 2);
+            crate::fit!(nd, n <= 2, "C10.demand_fits_scenario_bound[base]");
             let r = a.process_into_buffer(&[&x0[..n]], &mut [&mut y0[..]], None);
             check!(r.is_ok(), "C03.ok[base]");
             k += 1;
